@@ -170,6 +170,46 @@ fn run_child(sc: &Script, fd: i32) -> i32 {
     unsafe { libc::_exit(77) }
 }
 
+/// The recipe registered from several threads at the same moment: shutdown and arming flag by two threads, 80 unrelated
+/// flags by four more. Every registration that returned Ok must be there: all flags get set, and the process ends with
+/// the status at the first or second delivery (whichever order the two registrations took).
+fn run_concurrent_child(sig: c_int, status: c_int, fd: i32) -> i32 {
+    MARK_FD.store(fd as usize, Ordering::SeqCst);
+    let other = if sig == libc::SIGUSR2 { libc::SIGUSR1 } else { libc::SIGUSR2 };
+    let cond = Arc::new(AtomicBool::new(false));
+    let barrier = Arc::new(std::sync::Barrier::new(6));
+    let mut js = Vec::new();
+    let flags: Vec<Arc<AtomicBool>> = (0..80).map(|_| Arc::new(AtomicBool::new(false))).collect();
+    for t in 0..6usize {
+        let (b, c) = (barrier.clone(), cond.clone());
+        let mine: Vec<Arc<AtomicBool>> = if t >= 2 { flags[(t - 2) * 20..(t - 1) * 20].to_vec() } else { Vec::new() };
+        js.push(std::thread::spawn(move || {
+            b.wait();
+            match t {
+                0 => signal_hook::flag::register_conditional_shutdown(sig, status, c).is_ok(),
+                1 => signal_hook::flag::register(sig, c).is_ok(),
+                _ => mine.into_iter().all(|f| signal_hook::flag::register(other, f).is_ok()),
+            }
+        }));
+    }
+    let all_ok = js.into_iter().all(|j| j.join().unwrap_or(false));
+    if !all_ok {
+        fork::wr(fd, "BAD a concurrent registration failed\n");
+    }
+    unsafe { libc::raise(other) };
+    let unset = flags.iter().filter(|f| !f.load(Ordering::SeqCst)).count();
+    if unset > 0 {
+        fork::wr(fd, &format!("BAD {} of 80 flags whose registration had returned Ok were not set by a delivery (registrations lost)\n", unset));
+    }
+    for i in 0..3 {
+        fork::wr(fd, &format!("STEP {}\n", i));
+        unsafe { libc::raise(sig) };
+        fork::wr(fd, &format!("SURVIVED {}\n", i));
+    }
+    fork::wr(fd, "END\n");
+    unsafe { libc::_exit(77) }
+}
+
 pub fn main(args: &[String]) -> i32 {
     let seed = arg_u64(args, "--seed", 1);
     let n = arg_u64(args, "--scripts", 600);
@@ -279,6 +319,30 @@ pub fn main(args: &[String]) -> i32 {
             break;
         }
     }
+    // (c) the recipe registered concurrently
+    let conc = arg_u64(args, "--concurrent", 40);
+    let mut conc_done = 0u64;
+    if bad.is_empty() {
+        for i in 0..conc {
+            let sig = shutdown_sigs[(i as usize + seed as usize) % shutdown_sigs.len()];
+            let status = ((i * 13 + seed) % 250 + 1) as c_int;
+            let res = fork::probe_ex(20_000, false, true, move |fd| run_concurrent_child(sig, status, fd));
+            let label = format!("concurrent registration of the recipe on signal {} status {}", sig, status);
+            conc_done += 1;
+            for l in res.out.lines().filter(|l| l.starts_with("BAD")) {
+                bad.push(("concurrent-registration-lost".into(), format!("{} || {}", l, label)));
+            }
+            match &res.end {
+                End::Timeout => inconclusive = Some(format!("timed out: {}", label)),
+                End::Exit(c) if *c == status && !res.out.contains("SURVIVED 1") => {}
+                other => bad.push(("concurrent-registration-lost".into(), format!("after shutdown and arming flag had both been registered (by two threads at once) the process ended with {:?} after {:?} instead of exit status {} at the first or second delivery || {}", other, res.out.lines().last(), status, label))),
+            }
+            keys.insert("concurrent-recipe".to_string());
+            if !bad.is_empty() {
+                break;
+            }
+        }
+    }
     let mut nviol = 0;
     let mut seen = std::collections::HashSet::new();
     for (s, d) in bad.iter() {
@@ -297,6 +361,7 @@ pub fn main(args: &[String]) -> i32 {
         .set("recipe_grid_scripts", J::u(grid as u64))
         .set("scripts_terminated", J::u(terminated))
         .set("scripts_survived", J::u(survived_all))
+        .set("concurrent_recipe_children", J::u(conc_done))
         .set("violations", J::u(nviol))
         .set("wall_ms", J::u(crate::now_ms() - t0)));
     if nviol == 0 {
